@@ -1952,8 +1952,14 @@ class unyt_array(np.ndarray):
                         raise UnitOperationError(ufunc, u0, u1.units)
                     if u1.shape == ():
                         u1 = float(u1)
-                    else:
+                    elif not u1.size or (u0.is_dimensionless and u0.base_value == 1.0):
                         u1 = 1.0
+                    elif np.ptp(u1) == 0:
+                        # a scalar with units raised to an array of exponents:
+                        # only a uniform exponent gives the result one unit
+                        u1 = float(np.asarray(u1).flat[0])
+                    else:
+                        raise UnitOperationError(ufunc, u0, getattr(u1, "units", None))
                 elif inp0.shape == inp1.shape:
                     if isinstance(u1, unyt_array) and not u1.units.is_dimensionless:
                         raise UnitOperationError(ufunc, u0, getattr(u1, "units", None))
